@@ -261,20 +261,80 @@ func mutate(r *vh.Rand, m []byte) []byte {
 	return m
 }
 
+// nameBytes: a protocol / host name of n bytes: lower case, mixed case, with dots (also leading, trailing, doubled),
+// arbitrary bytes incl. 0x00, 0x2e, 0xff, or non-ASCII (UTF-8) text
+func nameBytes(r *vh.Rand, n int) []byte {
+	b := r.Bytes(n)
+	switch r.Intn(6) {
+	case 0: // any bytes
+	case 1:
+		for j := range b {
+			b[j] = []byte{0, '.', 0xff, '-', '_', ' ', 0x80, 'a', '*', '/'}[int(b[j])%10]
+		}
+	case 2:
+		for j := range b {
+			b[j] = 'A' + b[j]%26
+			if r.Bool() {
+				b[j] |= 0x20
+			}
+		}
+	case 3:
+		u := []byte("\xc3\xa9\xe4\xb8\xad\xd0\xb6x.")
+		for j := range b {
+			b[j] = u[j%len(u)]
+		}
+	default:
+		for j := range b {
+			b[j] = 'a' + b[j]%26
+		}
+	}
+	if n > 0 {
+		switch r.Intn(8) {
+		case 0:
+			b[n-1] = '.' // rooted name
+		case 1:
+			b[0] = '.'
+		case 2:
+			b[n/2] = '.'
+			if n/2+1 < n {
+				b[n/2+1] = '.' // empty label
+			}
+		}
+	}
+	return b
+}
+
 func strs(r *vh.Rand, k int) []string {
 	var s []string
 	for i := 0; i < k; i++ {
 		n := r.Range(1, 12) // marshal panics by design on ALPN/NPN names of 0 or > 255 bytes
-		if r.Chance(1, 10) {
-			n = []int{1, 254, 255}[r.Intn(3)]
+		if r.Chance(1, 8) {
+			n = []int{1, 2, 254, 255}[r.Intn(4)]
 		}
-		b := r.Bytes(n)
-		for j := range b {
-			b[j] = 'a' + b[j]%26
-		}
-		s = append(s, string(b))
+		s = append(s, string(nameBytes(r, n)))
 	}
 	return s
+}
+
+// server names: ordinary host names, rooted names ("www.example.com."), empty labels, upper case, IP literals,
+// non-ASCII and arbitrary bytes, lengths 1, 255, 256 and near the 16-bit limit
+func genSNI(r *vh.Rand) []byte {
+	switch r.Intn(12) {
+	case 0:
+		return []byte([]string{"www.example.com.", "localhost.", ".", "..", "a..b", "WWW.EXAMPLE.COM", "xn--bcher-kva.example",
+			"192.0.2.1", "[2001:db8::1]", "*.example.com", "a", "example.com:443", "b\xc3\xbccher.example", " example.com", "ex\x00ample.com"}[r.Intn(15)])
+	case 1:
+		return nameBytes(r, []int{1, 2, 253, 254, 255, 256, 257}[r.Intn(7)])
+	case 2:
+		if r.Chance(1, 3) {
+			return nameBytes(r, []int{65000, 65400}[r.Intn(2)]) // extensions still below 64 KiB only without other large fields
+		}
+		return nameBytes(r, r.Range(60, 300))
+	case 3, 4:
+		return nameBytes(r, r.Range(1, 40))
+	default:
+		return append(nameBytes(r, r.Range(1, 12)), []byte([]string{".example", ".example.", ".EXAMPLE.COM", ".com", "."}[r.Intn(5)])...)
+	}
 }
 
 func flag(r *vh.Rand, num, den int) string {
@@ -294,6 +354,19 @@ func flatStrs(r *vh.Rand, k, w int) []byte {
 		out = append(out, s...)
 	}
 	return out
+}
+
+// number of entries of a uint16 list (curves, signature algorithms): empty, one, a few, many
+func listLen(r *vh.Rand) int {
+	switch r.Intn(8) {
+	case 0:
+		return 0
+	case 1:
+		return 1
+	case 2:
+		return []int{127, 128, 129, 255, 256}[r.Intn(5)]
+	}
+	return r.Range(2, 6)
 }
 
 func smallLen(r *vh.Rand) int {
@@ -326,12 +399,15 @@ func genCHL(r *vh.Rand) string {
 	}
 	sni := ""
 	if r.Chance(2, 3) {
-		sni = strs(r, 1)[0] + ".example"
+		sni = string(genSNI(r))
 	}
 	tok := r.Chance(1, 2)
 	ticket := 0
 	if tok && r.Bool() {
 		ticket = smallLen(r)
+		if r.Chance(1, 12) {
+			ticket = []int{255, 256, 1200, 16384}[r.Intn(4)]
+		}
 	}
 	if !tok && r.Chance(1, 30) {
 		ticket = 3 // ticket without ticketSupported: not marshalled (outside the wire limits)
@@ -339,10 +415,13 @@ func genCHL(r *vh.Rand) string {
 	alpn := []byte(nil)
 	if r.Bool() {
 		alpn = flatStrs(r, r.Range(1, 3), 1)
+		if r.Chance(1, 10) {
+			alpn = flatStrs(r, r.Range(8, 40), 1)
+		}
 	}
 	return strings.Join([]string{h(2), h(rnd), h(sid), vh.Hex(suites), h([]int{0, 1, 1, 2, 255}[r.Intn(5)]), flag(r, 1, 2),
-		vh.Hex([]byte(sni)), flag(r, 1, 2), h(2 * r.Intn(5)), h([]int{0, 0, 1, 3, 255}[r.Intn(5)]), map[bool]string{true: "01", false: "00"}[tok],
-		h(ticket), h(2 * r.Intn(6)), flag(r, 1, 3), vh.Hex(alpn)}, ":")
+		vh.Hex([]byte(sni)), flag(r, 1, 2), h(2 * listLen(r)), h([]int{0, 0, 1, 2, 3, 254, 255}[r.Intn(7)]), map[bool]string{true: "01", false: "00"}[tok],
+		h(ticket), h(2 * listLen(r)), flag(r, 1, 3), vh.Hex(alpn)}, ":")
 }
 
 // serverHello fields: vers:random:sessionId:suite:comp:npn:protos:ocsp:ticketOK:reneg:alpn
@@ -371,7 +450,7 @@ func genCR(r *vh.Rand, has bool) string {
 	nt := []int{1, 1, 2, 3, 255, 0}[r.Intn(6)]
 	sig := 0
 	if has {
-		sig = 2 * r.Intn(6)
+		sig = 2 * listLen(r)
 	}
 	var cas []byte
 	for i := r.Intn(4); i > 0; i-- {
@@ -523,6 +602,19 @@ func main() {
 			emit("rt cst 01:" + z)
 			emit("rt cv1 04:01:" + z)
 			emit("rt crt " + vh.Hex(make([]byte, n+1)) + ",01")
+		}
+		// unusual-but-legal names in every name-carrying field
+		for _, n := range []string{"www.example.com.", "localhost.", ".", "a..b", "WWW.Example.COM", "b\xc3\xbccher.example", "ex\x00ample", "*", " "} {
+			hn := vh.Hex([]byte(n))
+			al := vh.Hex(append([]byte{byte(len(n))}, n...))
+			rnd := vh.Hex(make([]byte, 32))
+			emit("rt chl 0303:" + rnd + ":-:c02f:00:00:" + hn + ":00:-:-:00:-:-:00:-")
+			emit("rt chl 0303:" + rnd + ":-:c02f:00:00:" + hn + ":01:0017:00:01:-:0401:00:" + al)
+			emit("rt shl 0303:" + rnd + ":-:c02f:00:01:" + al + ":00:00:00:" + hn)
+			emit("rt npn " + hn)
+		}
+		for _, n := range []int{1, 255, 256, 65000} {
+			emit("rt chl 0303:" + vh.Hex(make([]byte, 32)) + ":-:c02f:00:00:" + vh.Hex(nameBytes(r, n)) + ":00:-:-:00:-:-:00:-")
 		}
 		emit("rt crt 01,-")
 		emit("rt crt -,01")
